@@ -135,6 +135,9 @@ def parse_stream(text):
     return cases, stats, notes
 
 
+RESOURCE_EXHAUSTED = re.compile(r"pthread_create failed|failed to create new OS thread|[Rr]esource temporarily unavailable|cannot allocate memory|out of memory")
+
+
 class Check:
     def __init__(self, pid, argv=None):
         argv = list(sys.argv[1:] if argv is None else argv)
@@ -220,6 +223,13 @@ class Check:
             cmd.append("-race")
         cmd.append(pkg)
         rc, log = sh(cmd, cwd=REPO, env=go_env(), timeout=timeout)
+        # A crash of the go tool itself (thread/memory exhaustion on a loaded machine: a Go runtime trace and no
+        # compiler diagnostic `file.go:line:`) says nothing about /repo: retry, with less parallelism.
+        for attempt in (1, 2, 3):
+            if rc == 0 or re.search(r"\.go:\d+(:\d+)?: ", log) or not re.search(r"fatal error:|goroutine \d+ |signal: killed|cannot allocate|resource temporarily unavailable", log):
+                break
+            time.sleep(10 * attempt)
+            rc, log = sh(cmd[:2] + ["-p", "2"] + cmd[2:], cwd=REPO, env=go_env(), timeout=timeout)
         ok = rc == 0 and os.path.exists(out)
         self.oblige(f"go build -tags verif {pkg} (harness compiles against /repo's working tree)", ok, log, kind="tie")
         if not ok:
@@ -231,7 +241,15 @@ class Check:
         env = go_env()
         if env_extra:
             env.update(env_extra)
-        rc, out = sh([binary, f"-seed={self.seed}", f"-tier={self.tier}"] + list(args), cwd=BUILD, env=env, timeout=timeout, stdin=stdin)
+        argv = [binary, f"-seed={self.seed}", f"-tier={self.tier}"] + list(args)
+        rc, out = sh(argv, cwd=BUILD, env=env, timeout=timeout, stdin=stdin)
+        # The machine ran out of threads/processes/memory under the harness (seen only with ~20 other jobs running):
+        # that is not a statement about /repo. The harness is a deterministic function of seed and tier: run it again.
+        for attempt in (1, 2):
+            if rc == 0 or not RESOURCE_EXHAUSTED.search(out):
+                break
+            time.sleep(20 * attempt)
+            rc, out = sh(argv, cwd=BUILD, env=env, timeout=timeout, stdin=stdin)
         return rc, out
 
     # ------------------------------------------------------------------ Lean
